@@ -345,7 +345,11 @@ impl<'a> G<'a> {
                         0 | 1 => f.extend_from_slice(&[0x50, 0x01, 0x00, 0x07, 0x07, 0x00]),
                         2 => f.extend_from_slice(&[0x50, 0x01, 0x00, 0x07, 0x07, 0x01]),
                         3 => f.extend_from_slice(&[0x50, 0x01, 0x00, 0x04, 0x04, 0x00]),
-                        4 => f.extend_from_slice(&[0x50, 0x01, 0x00, 0x00, 0x0f, 0x00, 0x00]),
+                        4 => {
+                            // a range wider than index 7: the other indices are refused, index 7 = 0 still clears
+                            let h: &[u8] = *self.r.pick(&[&[0x50u8, 0x01, 0x00, 0x00, 0x0f, 0x00, 0x00][..], &[0x50, 0x01, 0x00, 0x06, 0x07, 0x00], &[0x50, 0x01, 0x00, 0x00, 0x07, 0x00], &[0x50, 0x01, 0x00, 0x07, 0x08, 0x00], &[0x50, 0x01, 0x00, 0x05, 0x07, 0x04]]);
+                            f.extend_from_slice(h);
+                        }
                         5 => {
                             f.extend_from_slice(&[0x32, 0x01, 0x07, 0x01]);
                             f.extend_from_slice(&self.r.next().to_le_bytes()[..6]);
